@@ -124,14 +124,14 @@ func (o cop) matches(r preq) bool {
 }
 
 type callsSpec struct {
-	callers  [][]cop
-	permute  bool
-	cut      int // -1 none
-	cutErr   bool
-	fw       int
-	after    bool // one more Stat after all callers returned
-	sync1    bool // rendezvous c2s pipe
-	handsh   bool // the cut may fall into the handshake
+	callers [][]cop
+	permute bool
+	cut     int // -1 none
+	cutErr  bool
+	fw      int
+	after   bool // one more Stat after all callers returned
+	sync1   bool // rendezvous c2s pipe
+	handsh  bool // the cut may fall into the handshake
 }
 
 func (s callsSpec) String() string {
